@@ -1,1 +1,479 @@
-(** Model/FsRewrite.v — placeholder, to be written. *)
+(** Model/FsRewrite.v — the in-place file rewrite of pypyr/utils/filesystem.py as an
+    interpreter over the primitive file-system operations the code issues.
+
+    Mirrors, as they are written:
+      StreamRewriter.in_to_out   (fileformat, filereplace)
+      ObjectRewriter.in_to_out   (fileformatjson / yaml / toml)
+      move_temp_file / move_file (try os.replace; on failure try os.remove, re-raise the first error)
+      is_same_file               (out == in is routed to the in-place path)
+      FileRewriter.files_in_to_out (the loop over the glob result; stops at the first failure)
+
+    A directory is an association list name -> bytes.  The formatter / (de)serialiser is a
+    PARAMETER of the model: [xf old] is the data-dependent plan of one rewrite of a file whose
+    bytes are [old] - whether it loads, and the sequence of items: [Some c] "this item formats
+    and chunk c is written", [None] "formatting this item raises".  What is modelled here is the
+    protocol around it: which primitive is issued when, what each leaves in the directory, and
+    which with / except / finally paths run when a primitive raises or the process dies.
+
+    Faults: [F : nat -> fmode] assigns to the k-th primitive ISSUED (counting the ones issued by
+    clean-up paths) [NoFault], [Raise] (it raises instead of acting) or [Crash] (the process dies
+    there: nothing more runs).  [Replace] is atomic (POSIX rename - assumed). *)
+From PV Require Export PyStr.
+Open Scope string_scope.
+
+Definition name := string.
+Definition bytes := string.
+Definition dir := list (name * bytes).
+
+Fixpoint lookup (n : name) (d : dir) : option bytes :=
+  match d with
+  | [] => None
+  | (m, b) :: r => if String.eqb n m then Some b else lookup n r
+  end.
+
+(** update in place, or append a new entry *)
+Fixpoint dset (n : name) (b : bytes) (d : dir) : dir :=
+  match d with
+  | [] => [(n, b)]
+  | (m, c) :: r => if String.eqb n m then (m, b) :: r else (m, c) :: dset n b r
+  end.
+
+Fixpoint dremove (n : name) (d : dir) : dir :=
+  match d with
+  | [] => []
+  | (m, c) :: r => if String.eqb n m then dremove n r else (m, c) :: dremove n r
+  end.
+
+(** os.path.dirname (with its trailing slash) and basename of a relative posix name *)
+Fixpoint dirpart (s : string) : string :=
+  match s with
+  | EmptyString => EmptyString
+  | String c r =>
+      if contains_char "/" r then String c (dirpart r)
+      else if Ascii.eqb c "/" then String c EmptyString else EmptyString
+  end.
+
+Fixpoint basename (s : string) : string :=
+  match s with
+  | EmptyString => EmptyString
+  | String c r => if contains_char "/" s then basename r else s
+  end.
+
+(** * State *)
+Inductive tstate := TOpen | TClosed | TBroken.
+(* write handle: open (bytes still buffered: on-disk content unspecified) / closed, flushed /
+   close() failed (content unspecified for good) *)
+
+Record st := mkst {
+  sd : dir;
+  src_open : bool;                   (* a read handle on the source is open *)
+  wh : option (name * tstate);       (* the write handle: temp file, or the out file *)
+  temps : list name;                 (* ghost: every temp name created so far *)
+  nrep : nat                         (* ghost: number of os.replace calls that took effect *)
+}.
+
+Definition init (d : dir) : st := mkst d false None [] 0.
+
+Definition wname (s : st) : option name :=
+  match wh s with Some (t, _) => Some t | None => None end.
+
+(** * Primitives *)
+Inductive op :=
+| OpenRead (src : name)        (* open(in_path)                                         *)
+| LoadFail                     (* representer.load raises (malformed payload) - data     *)
+| CloseSrc                     (* source handle closed by its with block                *)
+| MkTemp (src : name)          (* NamedTemporaryFile(dir=dirname(in_path), delete=False) *)
+| OpenWrite (out : name)       (* open(out_path, 'w') - only when out is another file    *)
+| FmtFail                      (* formatting the next item raises - data                *)
+| Write (c : bytes)            (* one write() on the write handle                       *)
+| CloseW                       (* write handle closed by its with block                 *)
+| Replace (dst : name)         (* os.replace(outfile.name, infile.name)                 *)
+| Remove.                      (* os.remove(outfile.name) - move_temp_file's handler    *)
+
+(** data-driven raising steps are not file-system primitives: not counted, not injectable *)
+Definition visible (o : op) : bool :=
+  match o with LoadFail | FmtFail => false | _ => true end.
+
+(** the temp name: chosen by the environment, guaranteed not to exist (O_EXCL) *)
+Definition namer := dir -> string -> name.
+
+Definition set_src (b : bool) (s : st) : st :=
+  mkst (sd s) b (wh s) (temps s) (nrep s).
+Definition set_w (ts : tstate) (s : st) : st :=
+  match wh s with
+  | Some (t, _) => mkst (sd s) (src_open s) (Some (t, ts)) (temps s) (nrep s)
+  | None => s
+  end.
+Definition set_sd (d : dir) (s : st) : st :=
+  mkst d (src_open s) (wh s) (temps s) (nrep s).
+
+Definition exec (nm : namer) (o : op) (s : st) : st :=
+  match o with
+  | OpenRead _ => set_src true s
+  | CloseSrc => set_src false s
+  | MkTemp src =>
+      let t := nm (sd s) (dirpart src) in
+      mkst (dset t "" (sd s)) (src_open s) (Some (t, TOpen)) (t :: temps s) (nrep s)
+  | OpenWrite out =>
+      mkst (dset out "" (sd s)) (src_open s) (Some (out, TOpen)) (temps s) (nrep s)
+  | Write c =>
+      match wh s with
+      | Some (t, _) =>
+          match lookup t (sd s) with
+          | Some b => set_sd (dset t (b ++ c) (sd s)) s
+          | None => s
+          end
+      | None => s
+      end
+  | CloseW => set_w TClosed s
+  | Replace dst =>
+      match wh s with
+      | Some (t, _) =>
+          match lookup t (sd s) with
+          | Some b => mkst (dremove t (dset dst b (sd s))) (src_open s) (wh s) (temps s) (S (nrep s))
+          | None => s
+          end
+      | None => s
+      end
+  | Remove =>
+      match wh s with
+      | Some (t, _) => set_sd (dremove t (sd s)) s
+      | None => s
+      end
+  | LoadFail | FmtFail => s
+  end.
+
+(** what a primitive that RAISES leaves: nothing, except that a failing close() still
+    releases the handle *)
+Definition fail_effect (o : op) (s : st) : st :=
+  match o with
+  | CloseW => set_w TBroken s
+  | CloseSrc => set_src false s
+  | _ => s
+  end.
+
+(** * Faults, outcomes *)
+Inductive fmode := NoFault | Raise | Crash.
+
+Inductive exn :=
+| EInj (k : nat)      (* the error raised by the k-th primitive *)
+| EFormat             (* KeyNotInContextError & co. from the formatter *)
+| ELoad               (* parse error from the representer *)
+| EConfig.            (* files_in_to_out: several in files, one out file *)
+
+Inductive outcome := Done | Raised (e : exn) | Crashed | Unsupp.
+
+Record result := mkres {
+  final : st;
+  outc : outcome;
+  hist : list (op * st);        (* the state BEFORE each primitive issued, in order *)
+  next : nat;                   (* primitives issued so far *)
+  stop : option (nat * op)      (* the main-line step that raised, with the counter there *)
+}.
+
+Definition prepend (h : list (op * st)) (r : result) : result :=
+  mkres (final r) (outc r) (h ++ hist r) (next r) (stop r).
+
+Definition with_stop (x : option (nat * op)) (r : result) : result :=
+  mkres (final r) (outc r) (hist r) (next r) x.
+
+(** every directory state an outside observer (or a kill) can see during the run *)
+Definition all_states (r : result) : list st := map snd (hist r) ++ [final r].
+
+Definition wh_is_open (s : st) : bool :=
+  match wh s with Some (_, TOpen) => true | _ => false end.
+
+(** An exception [e] propagates: the with blocks close their handles, innermost (the write
+    handle) first.  A close that raises replaces the exception in flight; the outer with
+    still runs. *)
+Definition unwind (F : nat -> fmode) (n : nat) (s : st) (e : exn) : result :=
+  if wh_is_open s then
+    match F n with
+    | Crash => mkres s Crashed [(CloseW, s)] (S n) None
+    | fm =>
+        let s1 := match fm with Raise => set_w TBroken s | _ => set_w TClosed s end in
+        let e1 := match fm with Raise => EInj n | _ => e end in
+        if src_open s1 then
+          match F (S n) with
+          | Crash => mkres s1 Crashed [(CloseW, s); (CloseSrc, s1)] (S (S n)) None
+          | Raise => mkres (set_src false s1) (Raised (EInj (S n)))
+                           [(CloseW, s); (CloseSrc, s1)] (S (S n)) None
+          | NoFault => mkres (set_src false s1) (Raised e1)
+                             [(CloseW, s); (CloseSrc, s1)] (S (S n)) None
+          end
+        else mkres s1 (Raised e1) [(CloseW, s)] (S n) None
+    end
+  else if src_open s then
+    match F n with
+    | Crash => mkres s Crashed [(CloseSrc, s)] (S n) None
+    | Raise => mkres (set_src false s) (Raised (EInj n)) [(CloseSrc, s)] (S n) None
+    | NoFault => mkres (set_src false s) (Raised e) [(CloseSrc, s)] (S n) None
+    end
+  else mkres s (Raised e) [] n None.
+
+(** primitive [o] raised [e] (state [s] = after its fail_effect, [n] = next index):
+    move_temp_file catches a failing replace, tries to remove the temp (a failure of THAT is
+    logged and dropped) and re-raises the first error; everything else just propagates. *)
+Definition handler (nm : namer) (F : nat -> fmode) (o : op) (n : nat) (s : st) (e : exn)
+  : result :=
+  match o with
+  | Replace _ =>
+      match F n with
+      | Crash => mkres s Crashed [(Remove, s)] (S n) None
+      | Raise => prepend [(Remove, s)] (unwind F (S n) s e)
+      | NoFault => prepend [(Remove, s)] (unwind F (S n) (exec nm Remove s) e)
+      end
+  | _ => unwind F n s e
+  end.
+
+Definition data_exn (o : op) : exn :=
+  match o with LoadFail => ELoad | _ => EFormat end.
+
+(** run the main line [ops] from primitive index [n] in state [s] *)
+Fixpoint run_ops (nm : namer) (F : nat -> fmode) (ops : list op) (n : nat) (s : st) : result :=
+  match ops with
+  | [] => mkres s Done [] n None
+  | o :: rest =>
+      if visible o then
+        match F n with
+        | Crash => mkres s Crashed [(o, s)] (S n) None
+        | Raise => with_stop (Some (n, o))
+                     (prepend [(o, s)] (handler nm F o (S n) (fail_effect o s) (EInj n)))
+        | NoFault => prepend [(o, s)] (run_ops nm F rest (S n) (exec nm o s))
+        end
+      else with_stop (Some (n, o)) (unwind F n s (data_exn o))
+  end.
+
+(** * The op sequences of the two rewriters *)
+Inductive kind := Stream | Object.
+
+Record plan := mkplan {
+  load_ok : bool;                     (* Object only: representer.load succeeds *)
+  items : list (option bytes)         (* Some c: formatted, c written;  None: formatting raises *)
+}.
+
+Definition item_op (i : option bytes) : op :=
+  match i with Some c => Write c | None => FmtFail end.
+
+Definition load_ops (pl : plan) : list op := if load_ok pl then [] else [LoadFail].
+
+(** in place: out is None, or is_same_file(in, out) *)
+Definition inplace_ops (k : kind) (pl : plan) (src : name) : list op :=
+  match k with
+  | Stream =>
+      (* with open(in) as infile:
+           with NamedTemporaryFile(...) as outfile: outfile.writelines(formatter(infile))
+         move_temp_file(outfile.name, infile.name) *)
+      [OpenRead src; MkTemp src] ++ map item_op (items pl) ++ [CloseW; CloseSrc; Replace src]
+  | Object =>
+      (* with open(in) as infile: obj = load(infile)
+         with NamedTemporaryFile(...) as outfile: dump(outfile, formatter(obj))
+         move_temp_file(outfile.name, infile.name) *)
+      [OpenRead src] ++ load_ops pl ++ [CloseSrc; MkTemp src] ++ map item_op (items pl)
+        ++ [CloseW; Replace src]
+  end.
+
+(** out is a different file: written directly, no temp, no rename *)
+Definition direct_ops (k : kind) (pl : plan) (src out : name) : list op :=
+  match k with
+  | Stream => [OpenRead src; OpenWrite out] ++ map item_op (items pl) ++ [CloseW; CloseSrc]
+  | Object => [OpenRead src] ++ load_ops pl ++ [CloseSrc; OpenWrite out]
+                ++ map item_op (items pl) ++ [CloseW]
+  end.
+
+(** the complete new content, when the plan has one *)
+Fixpoint concat_items (l : list (option bytes)) : option bytes :=
+  match l with
+  | [] => Some ""
+  | Some c :: r => match concat_items r with Some b => Some (c ++ b) | None => None end
+  | None :: _ => None
+  end.
+
+Definition new_of (k : kind) (pl : plan) : option bytes :=
+  match k with
+  | Stream => concat_items (items pl)
+  | Object => if load_ok pl then concat_items (items pl) else None
+  end.
+
+(** * files_in_to_out *)
+Inductive outmode :=
+| NoOut                     (* out not given: edit in place *)
+| OutFile (o : name)        (* out names a file *)
+| OutDir (d : string).      (* out names a directory (prefix with trailing slash) *)
+
+Definition target (p : name) (m : outmode) : option name :=
+  match m with
+  | NoOut => None
+  | OutFile o => Some o
+  | OutDir d => Some (d ++ basename p)
+  end.
+
+(** is_same_file on canonical names (no links in the model) *)
+Definition file_ops (k : kind) (pl : plan) (p : name) (m : outmode) : list op :=
+  match target p m with
+  | None => inplace_ops k pl p
+  | Some o => if String.eqb o p then inplace_ops k pl p else direct_ops k pl p o
+  end.
+
+Definition xform := bytes -> option plan.   (* None: content outside the harness's table *)
+
+Fixpoint run_files (nm : namer) (F : nat -> fmode) (xf : xform) (k : kind) (m : outmode)
+         (paths : list name) (n : nat) (s : st) : result :=
+  match paths with
+  | [] => mkres s Done [] n None
+  | p :: rest =>
+      match lookup p (sd s) with
+      | None => run_files nm F xf k m rest n s          (* not is_file(): skipped *)
+      | Some old =>
+          match xf old with
+          | None => mkres s Unsupp [] n None
+          | Some pl =>
+              let r := run_ops nm F (file_ops k pl p m) n s in
+              match outc r with
+              | Done => prepend (hist r) (run_files nm F xf k m rest (next r) (final r))
+              | _ => r
+              end
+          end
+      end
+  end.
+
+(** the check before the loop: more than one in path but a single out FILE is an error *)
+Definition run_step (nm : namer) (F : nat -> fmode) (xf : xform) (k : kind) (m : outmode)
+           (paths : list name) (d : dir) : result :=
+  match m, paths with
+  | OutFile _, _ :: _ :: _ => mkres (init d) (Raised EConfig) [] 0 None
+  | _, _ => run_files nm F xf k m paths 0 (init d)
+  end.
+
+(** the directory after the first files of [paths] have been completely rewritten *)
+Fixpoint apply_new (xf : xform) (k : kind) (paths : list name) (d : dir) : dir :=
+  match paths with
+  | [] => d
+  | p :: rest =>
+      match lookup p d with
+      | None => apply_new xf k rest d
+      | Some old =>
+          match xf old with
+          | Some pl =>
+              match new_of k pl with
+              | Some nw => apply_new xf k rest (dset p nw d)
+              | None => apply_new xf k rest d
+              end
+          | None => apply_new xf k rest d
+          end
+      end
+  end.
+
+(** * A concrete fresh-name supply (for the examples and the correspondence run) *)
+Fixpoint maxlen (d : dir) : nat :=
+  match d with [] => 0 | (m, _) :: r => Nat.max (String.length m) (maxlen r) end.
+
+Definition default_namer : namer :=
+  fun d pre => pre ++ "tmp" ++ repeat_char "_" (S (maxlen d)).
+
+Definition fresh_namer (nm : namer) : Prop := forall d pre, lookup (nm d pre) d = None.
+
+(** * Comparison with an observation of the real code *)
+Fixpoint mem (n : name) (l : list name) : bool :=
+  match l with [] => false | m :: r => orb (String.eqb n m) (mem n r) end.
+
+Definition canon_name (s : st) (n : name) : name :=
+  if mem n (temps s) then dirpart n ++ "<tmp>" else n.
+
+Definition unflushed (s : st) (n : name) : bool :=
+  match wh s with
+  | Some (t, TClosed) => false
+  | Some (t, _) => String.eqb t n
+  | None => false
+  end.
+
+(** what the model commits to about the directory: names (temp names canonicalised) and the
+    bytes of every file except one with unflushed writes *)
+Definition view (s : st) : list (name * option bytes) :=
+  map (fun e => (canon_name s (fst e), if unflushed s (fst e) then None else Some (snd e))) (sd s).
+
+Definition tag (s : st) (o : op) : string :=
+  let w := match wname s with Some t => canon_name s t | None => "?" end in
+  match o with
+  | OpenRead p => "open-r:" ++ p
+  | OpenWrite p => "open-w:" ++ p
+  | MkTemp p => "mktemp:" ++ dirpart p
+  | Write _ => "write"
+  | CloseW => "close-w"
+  | CloseSrc => "close-src"
+  | Replace d => "replace:" ++ w ++ ">" ++ d
+  | Remove => "remove:" ++ w
+  | LoadFail => "load-fail"
+  | FmtFail => "fmt-fail"
+  end.
+
+Definition opt_bytes_ok (m : option bytes) (b : bytes) : bool :=
+  match m with None => true | Some x => String.eqb x b end.
+
+Fixpoint find_entry (n : name) (l : list (name * bytes)) : option bytes :=
+  match l with
+  | [] => None
+  | (m, b) :: r => if String.eqb n m then Some b else find_entry n r
+  end.
+
+Definition match_view (mv : list (name * option bytes)) (ov : list (name * bytes)) : bool :=
+  andb (Nat.eqb (List.length mv) (List.length ov))
+       (forallb (fun e => match find_entry (fst e) ov with
+                          | Some b => opt_bytes_ok (snd e) b
+                          | None => false
+                          end) mv).
+
+Fixpoint match_hist (h : list (op * st)) (oh : list (string * list (name * bytes))) : bool :=
+  match h, oh with
+  | [], [] => true
+  | (o, s) :: r, (t, ov) :: r' =>
+      andb (andb (String.eqb (tag s o) t) (match_view (view s) ov)) (match_hist r r')
+  | _, _ => false
+  end.
+
+Definition exn_eqb (a b : exn) : bool :=
+  match a, b with
+  | EInj x, EInj y => Nat.eqb x y
+  | EFormat, EFormat | ELoad, ELoad | EConfig, EConfig => true
+  | _, _ => false
+  end.
+
+Definition outcome_eqb (a b : outcome) : bool :=
+  match a, b with
+  | Done, Done | Crashed, Crashed | Unsupp, Unsupp => true
+  | Raised x, Raised y => exn_eqb x y
+  | _, _ => false
+  end.
+
+Fixpoint fault_fun (l : list (nat * fmode)) (n : nat) : fmode :=
+  match l with
+  | [] => NoFault
+  | (k, m) :: r => if Nat.eqb k n then m else fault_fun r n
+  end.
+
+Fixpoint table_xf (tbl : list (bytes * plan)) (b : bytes) : option plan :=
+  match tbl with
+  | [] => None
+  | (c, pl) :: r => if String.eqb b c then Some pl else table_xf r b
+  end.
+
+(** 0 = the model reproduces the observation, 1 = it does not, 2 = outside the table.
+    [oh = None]: only outcome and final directory were observed (a real kill). *)
+Definition check (k : kind) (tbl : list (bytes * plan)) (m : outmode) (paths : list name)
+           (d : dir) (faults : list (nat * fmode))
+           (oh : option (list (string * list (name * bytes))))
+           (oo : outcome) (ofinal : list (name * bytes)) : nat :=
+  let r := run_step default_namer (fault_fun faults) (table_xf tbl) k m paths d in
+  match outc r with
+  | Unsupp => 2
+  | _ =>
+      if andb (andb (outcome_eqb (outc r) oo) (match_view (view (final r)) ofinal))
+              (match oh with Some h => match_hist (hist r) h | None => true end)
+      then 0 else 1
+  end.
+
+(** printable form of a model run, for replay files *)
+Definition show (k : kind) (tbl : list (bytes * plan)) (m : outmode) (paths : list name)
+           (d : dir) (faults : list (nat * fmode)) :=
+  let r := run_step default_namer (fault_fun faults) (table_xf tbl) k m paths d in
+  (outc r, map (fun e => (tag (snd e) (fst e), view (snd e))) (hist r), view (final r)).
